@@ -42,6 +42,21 @@ def rule_body(ctx, fl):
         ctx.ob('C14.1', 'calls the init_routine parameter', same_value(f, c.d['callee_ref'], rt), 'the routine called is the argument', loc=c.loc)
         ctx.ob('C14.1', 'invocation only by the elected caller', any(on_cas_success(f, x, c) for x in cas),
                'the call is reached only through the success edge of the election CAS', loc=c.loc)
+    # a caller that reads "init" stands for election: the CAS is not skipped on that reading (otherwise the very first caller waits
+    # for a completion nobody will ever produce)
+    for x in cas:
+        skipped = False
+        for icmp in f.order:
+            if icmp.op == 'icmp' and icmp.pred in ('eq', 'ne') and const_int(icmp.ops[1]) == INIT and \
+                    all(k in f.insts and f.insts[k].op == 'load' and f.field(f.insts[k]) == ST for k in f.sources(icmp.ops[0])) and f.sources(icmp.ops[0]):
+                for br in f.users(icmp.id):
+                    if br.op == 'br' and 'cond' in br.d:
+                        eq_t = br.d['t'] if icmp.pred == 'eq' else br.d['f']
+                        first = lib.first_inst(f, eq_t)
+                        if x is not first and x not in f.reachable_from(first, include_start=True):
+                            skipped = True
+        ctx.ob('C14.1', 'a caller that reads init attempts the election', not skipped,
+               'reading the control as init leads to the election CAS; only other readings go straight to waiting', loc=x.loc)
     sts = [s for s in f.stores_to(ST)]
     done = [s for s in sts if const_int(s.ops[0]) == DONE]
     ctx.ob('C14.2', 'completed store', len(done) == 1 and done[0].volatile and same_value(f, f.ap(done[0].ops[1]).root, oc),
@@ -151,6 +166,8 @@ def run(ctx):
 
 SYNC = 'src/myth_sync_func.h'
 MUTANTS = [
+    {'name': 'a caller that reads init goes straight to waiting (sweep M0431)', 'expect': 'C14.1',
+     'edits': [(SYNC, "  if (s == myth_once_state_init) {\n   if (myth_once_try_set(", "  if (!(s == myth_once_state_init)) {\n   if (myth_once_try_set(")]},
     {'name': 'init routine called before the election', 'expect': 'C14.1',
      'edits': [(SYNC, "   if (myth_once_try_set(once_control, myth_once_state_init,\n\t\t\t myth_once_state_in_progress)) {\n     init_routine();", "   init_routine();\n   if (myth_once_try_set(once_control, myth_once_state_init,\n\t\t\t myth_once_state_in_progress)) {")]},
     {'name': 'completed published before running the routine', 'expect': 'C14.2',
